@@ -103,7 +103,10 @@ def solve_goal(goal):
         except SymPyException:
             return False
 
-        return lhs != rhs
+        # Syntactically different expressions may still be equal: require
+        # that the difference is a number known to be nonzero.
+        diff = sympy.simplify(lhs - rhs)
+        return diff.is_number and diff.is_real is True and diff.is_zero is False
     elif goal.is_equals():
         try:
             lhs, rhs = convert(goal.lhs), convert(goal.rhs)
